@@ -1,7 +1,7 @@
 """Rebuild pylife.rainflow_ext from the CURRENT extension.pyx and install it in sys.modules,
 so that kernel edits in /repo are seen by the checks (the .so in the tree is never rebuilt by editing)."""
 import hashlib, importlib.util, os, subprocess, sys, sysconfig
-from . import WORK, REPO
+from . import WORK, REPO, EXT_CACHE
 
 
 def repo_src():
@@ -12,7 +12,7 @@ def ensure_ext():
     src = repo_src()
     pyx = os.path.join(src, 'pylife', 'stress', 'rainflow', 'extension.pyx')
     h = hashlib.sha256(open(pyx, 'rb').read()).hexdigest()[:16]
-    d = os.path.join(WORK, 'ext', h)
+    d = os.path.join(EXT_CACHE, h)
     so = os.path.join(d, 'rainflow_ext' + sysconfig.get_config_var('EXT_SUFFIX'))
     if not os.path.exists(so):
         os.makedirs(d, exist_ok=True)
